@@ -63,6 +63,9 @@ func VH_C18_snps() {
 	case 7: // reference with an invalid symbol
 		ref = []byte(">ref\nAXG\n")
 	}
+	if kind != 1 { // the symbolic offending byte is explored under the default schedule only
+		vSchedExplore(vParam("DEV"))
+	}
 	w := &vCapture{}
 	err := SNPs(bytes.NewReader(ref), bytes.NewReader(aln), false, vBool("aggregate"), 0, w)
 	vAssert("C18.snps.invalid-input-refused-with-error", err != nil)
